@@ -11,6 +11,13 @@ R-SRCTWIN     the lazy (map_overlap) and eager arm apply the same filter functio
               mode='wrap'; the image-side `gaussian_filter` uses sigma/sampling per base axis and maps its default
               boundary 'periodic' to the same mode (the documented commutation with integration needs the same kernel
               and boundary on both sides).
+              Image side, decided per array axis on what the filter calls actually receive (the method's tuple
+              assembly is executed by sa/rules/imgfilter for 0, 1, 2 ensemble axes, a scalar and a pair sigma, a lazy
+              and an eager array — no spelling of the assembly is assumed): every arm hands the filter 0 on each
+              ensemble axis and sigma[k]/sampling[k] on base axis k, in axis order; the overlap depth of the lazy arm is,
+              on every axis that is filtered, a constant >= truncate (default 4.0) times THAT per-axis pixel sigma, clipped
+              at most to the length of that same axis; the outer padding is periodic when the filter wraps; both arms
+              agree in filter, sigma, mode, cval, truncation; the assembly itself does not fault.
 """
 from __future__ import annotations
 
@@ -398,46 +405,20 @@ def _source_size(ctx, repo) -> None:
               f"filter's truncation radius {eg['truncate']} x sigma: lazy blocks see a cut kernel and differ from the "
               "eager result", key_detail="depth")
 
-    # ---- image-side filter
+    # ---- image-side filter: the mode its default boundary selects (read by executing the method, see _image_filter)
+    from ..rules.imgfilter import FilterCall
+
     g = repo.method(MEAS, "_BaseMeasurement2D", "gaussian_filter")
-    d = g.defaults().get("boundary")
-    default_boundary = _fold(d)
-    # mapping boundary -> mode
-    mode_for_default = None
-    # the local handed on as `mode=` to the filter calls (whatever it is called)
-    mode_vars = {dotted(k.value) for c in walk_no_nested(g.node) if isinstance(c, ast.Call)
-                 for k in c.keywords if k.arg == "mode" and isinstance(k.value, ast.Name)}
-    for st in walk_no_nested(g.node):
-        if isinstance(st, ast.If):
-            t = st.test
-            if isinstance(t, ast.Compare) and len(t.ops) == 1 and isinstance(t.ops[0], ast.Eq) and \
-                    dotted(t.left) == "boundary" and _fold(t.comparators[0]) == default_boundary:
-                for s2 in st.body:
-                    if isinstance(s2, ast.Assign) and dotted(s2.targets[0]) in (mode_vars or {"mode"}):
-                        mode_for_default = _fold(s2.value)
+    cases = [c for c in _image_cases(ctx, repo) if isinstance(c, FilterCall)]
+    ctx.require(bool(cases), f"{g.qualname}: no input reaches the filter")
+    default_boundary = cases[0].params.get("boundary")
+    modes = {c.kwargs.get("mode", "reflect(default)") if isinstance(c.kwargs.get("mode", ""), str) else "?" for c in cases}
+    mode_for_default = next(iter(modes)) if len(modes) == 1 else sorted(modes)
     ctx.check(mode_for_default == eg["mode"], "R-SRCTWIN", f"{g.qualname}:default-boundary", g.where,
               f"default boundary {default_boundary!r} -> mode {mode_for_default!r} = source-size mode",
               f"the image filter's default boundary {default_boundary!r} maps to mode {mode_for_default!r} but the "
               f"source-size filter uses {eg['mode']!r}: integrate-then-filter differs from filter-then-integrate at "
               "the scan boundary", key_detail="boundary")
-    # per-base-axis sigma = s / d over zip(sigma, self.sampling)
-    gens = [n for n in walk_no_nested(g.node) if isinstance(n, ast.GeneratorExp)
-            and isinstance(n.generators[0].iter, ast.Call) and call_name(n.generators[0].iter) == "zip"
-            and len(n.generators[0].iter.args) == 2 and dotted(n.generators[0].iter.args[0]) == "sigma"]
-    ctx.require(len(gens) >= 1, f"{g.qualname}: per-axis sigma generator over zip(sigma, sampling) not found")
-    gen = gens[0]
-    tgt = gen.generators[0].target
-    ctx.require(isinstance(tgt, ast.Tuple) and len(tgt.elts) == 2 and all(isinstance(e, ast.Name) for e in tgt.elts),
-                f"{g.qualname}: zip target is not a pair")
-    s_name, d_name = tgt.elts[0].id, tgt.elts[1].id
-    from ..terms import Normalizer
-    ep = Normalizer().norm(gen.elt)
-    expect = Poly.atom(s_name) * Poly.atom(d_name).inverse()
-    ctx.check(ep == expect and dotted(gen.generators[0].iter.args[1]) == "self.sampling", "R-SRCTWIN",
-              f"{g.qualname}:sigma-pixels", g.loc(gen), "image filter sigma [pixels] = sigma[k] / sampling[k]",
-              f"image filter sigma is {ep.key()} over zip(sigma, {norm_text(gen.generators[0].iter.args[1])}), not "
-              "sigma[k]/sampling[k]: the kernel differs from the source-size kernel sigma[i]/scan_sampling[i]",
-              key_detail="sigma")
 
 
 def _min_hook(nz, call: ast.Call):
@@ -458,7 +439,15 @@ def run(ctx) -> None:
              "two base axes; on a scan axis sigma = sigma[i]/scan_sampling[i]")
     ctx.rule("R-SRCTWIN", "the lazy map_overlap arm and the eager arm of _gaussian_source_size apply the same filter, "
              "sigma, truncation and mode='wrap', the overlap depth covers the truncation radius, and the image-side "
-             "gaussian_filter uses sigma/sampling and maps its default boundary to the same mode")
+             "gaussian_filter uses sigma/sampling and maps its default boundary to the same mode. Image side, per array "
+             "axis and for 0, 1, 2 ensemble axes / scalar and pair sigma / lazy and eager arrays (the tuple assembly is "
+             "executed symbolically): each arm hands the filter 0 on the ensemble axes and sigma[k]/sampling[k] [pixels] on "
+             "base axis k; the lazy overlap depth on every filtered axis is a constant >= the truncation factor times "
+             "that same per-axis pixel sigma (an overlap computed from another quantity — the sigma in length units, "
+             "sigma*sampling, the other axis — is smaller than the kernel radius for some sampling, so blocks are "
+             "filtered with a cut, wrongly wrapped neighbourhood and the image no longer equals the source-size-filtered "
+             "patterns integrated afterwards), clipped only to the length of its own axis, with periodic outer padding; "
+             "both arms agree in filter, sigma, mode, cval and truncation")
     ctx.undecided("Images.interpolate identities (same-grid identity, mean preservation)")
     ctx.undecided("numerical conservation of the total intensity (division by a zero pattern sum); dask's default "
                   "map_overlap boundary handling")
@@ -468,7 +457,9 @@ def run(ctx) -> None:
 
 
 # ---- added after the mutation sweep (sweepF): the scan-axis counter and the axis variable of the source-size filter,
-# ---- the overlap depth of the image-side filter, the grid arithmetic of Images.interpolate
+# ---- the overlap depth of the image-side filter, the grid arithmetic of Images.interpolate.
+# ---- Seeded change C16-r5seed2: the image-side sigma / overlap-depth rules no longer read one spelling of the tuple
+# ---- assembly (a comprehension over zip(sigma, shape)); _image_filter decides them on the executed per-axis values.
 _inner_run_c16b = run
 
 
@@ -594,63 +585,210 @@ def _scan_loop(ctx, repo) -> None:
               "the image-side filter", key_detail="counter")
 
 
-def _image_depth(ctx, repo) -> None:
+def _image_cases(ctx, repo):
+    """What `_BaseMeasurement2D.gaussian_filter` hands to the ndimage filter, for E = 0, 1, 2 ensemble axes, a scalar
+    and a pair sigma, a lazy and an eager array (sa/rules/imgfilter executes the method's tuple assembly)."""
+    from ..rules import imgfilter
+    from ..model import fold_constant
+
+    cached = getattr(repo, "_c16_image_cases", None)
+    if cached is None:
+        try:
+            g = repo.method(MEAS, "_BaseMeasurement2D", "gaussian_filter")
+            hit = repo.cls(MEAS, "_BaseMeasurement2D").find_class_attr("_base_dims")
+            try:
+                nbase = fold_constant(hit[1]) if hit is not None else None
+            except Exception:  # noqa: BLE001
+                nbase = None
+            if nbase != imgfilter.BASE_DIMS:
+                raise AnalysisError(f"{g.qualname}: the measurement does not declare two base axes (_base_dims={nbase})")
+            cached = ("ok", imgfilter.all_cases(g))
+        except AnalysisError as e:
+            cached = ("error", e)
+        try:
+            repo._c16_image_cases = cached
+        except Exception:  # noqa: BLE001
+            pass
+    if cached[0] == "error":
+        raise cached[1]
+    return cached[1]
+
+
+def _image_filter(ctx, repo) -> None:
+    """Per-axis decisions on the image-side filter: the sigma each arm hands to the filter, the overlap depth of the
+    lazy arm against that same per-axis sigma, the agreement of the two arms."""
+    from ..rules import imgfilter as F
+
     g = repo.method(MEAS, "_BaseMeasurement2D", "gaussian_filter")
-    df = DataFlow(g.node)
-    calls = [c for c in walk_no_nested(g.node) if isinstance(c, ast.Call) and last_attr(c) == "map_overlap"]
-    ctx.require(len(calls) == 1, f"{g.qualname}: one map_overlap call expected")
-    c = calls[0]
-    kws = {k.arg: k.value for k in c.keywords if k.arg}
-    ctx.require("depth" in kws and "sigma" in kws, f"{g.qualname}: map_overlap without depth=/sigma=")
-    at = df.cfg.node_of(_stmt_of(g, c)).idx
-    e, node, hops = kws["depth"], at, 0
-    while isinstance(e, ast.Name) and hops < 4:
-        d = df.single_def(node, e.id)
-        if d is None or d.value is None:
-            break
-        e, node, hops = d.value, d.node, hops + 1
-    if isinstance(e, ast.Call) and call_name(e) in ("tuple", "list") and len(e.args) == 1:
-        e = e.args[0]
-    ctx.require(isinstance(e, (ast.GeneratorExp, ast.ListComp)) and len(e.generators) == 1,
-                f"{g.qualname}: the overlap depth is not a per-axis comprehension")
-    gen = e.generators[0]
-    ctx.require(isinstance(gen.iter, ast.Call) and call_name(gen.iter) == "zip" and isinstance(gen.target, ast.Tuple)
-                and len(gen.iter.args) == len(gen.target.elts) and all(isinstance(x, ast.Name) for x in gen.target.elts),
-                f"{g.qualname}: the depth comprehension does not run over zip(...)")
-    sig_name = dotted(kws["sigma"])
-    roles = {}
-    for x, a in zip(gen.target.elts, gen.iter.args):
-        roles[x.id] = "sigma" if dotted(a) == sig_name else ("length" if (dotted(a) or "").endswith("shape") else "?")
-    svars = [v for v, r in roles.items() if r == "sigma"]
-    ctx.require(len(svars) == 1, f"{g.qualname}: the depth comprehension does not iterate the per-axis sigma handed to "
-                                 "the filter")
-    from ..terms import Normalizer
+    every = _image_cases(ctx, repo)
+    faults = [c for c in every if isinstance(c, F.Fault)]
+    cases = [c for c in every if isinstance(c, F.FilterCall)]
+    ctx.check(not faults, "R-SRCTWIN", f"{g.qualname}:per-axis assembly", g.loc(faults[0].node) if faults and
+              faults[0].node is not None else g.where,
+              "the per-axis sigma / depth tuples are assembled without a fault for 0, 1, 2 ensemble axes, scalar and pair "
+              "sigma, lazy and eager arrays",
+              "" if not faults else f"for {faults[0].ensemble_dims} ensemble axes, a {faults[0].sigma_kind} sigma and a "
+              f"{faults[0].arm} array the method fails while assembling its per-axis tuples: {faults[0].message}",
+              key_detail="image-fault")
+    ctx.assume("measurement API as modelled in sa/rules/imgfilter: self.shape = self.array.shape = ensemble axes "
+               "followed by the two base axes, self.base_shape / self.ensemble_shape / self.ensemble_dims its parts, "
+               "self.sampling the pixel size per base axis; scipy/cupyx gaussian_filter truncates the kernel at "
+               "`truncate` (default 4.0) standard deviations and skips axes whose sigma is 0")
 
-    def clip_hook(nz_, call):
-        # min(kernel radius, axis length) in either order: the clip does not change the term for long axes
-        if call_name(call) == "min" and len(call.args) == 2 and not call.keywords:
-            rest = [a for a in call.args if roles.get(dotted(a) or "") != "length"]
-            if len(rest) == 1:
-                return nz_.norm(rest[0])
-        return None
+    def label(c) -> str:
+        return f"{c.ensemble_dims} ensemble ax{'i' if c.ensemble_dims == 1 else 'e'}s, {c.sigma_kind} sigma"
 
-    nz = Normalizer(identity_calls={"int", "np.ceil", "xp.ceil", "math.ceil", "float"}, call_hook=clip_hook)
-    p = nz.norm(e.elt)
-    ratio = (p * Poly.atom(svars[0]).inverse()).const_value()
-    trunc = _fold(kws.get("truncate")) if kws.get("truncate") is not None else 4.0
-    ctx.check(ratio is not None and ratio >= Fraction(str(trunc)), "R-SRCTWIN", f"{g.qualname}:overlap-depth", g.loc(e),
-              f"lazy overlap depth = ceil({ratio} * sigma_pixels) covers the truncation radius {trunc} * sigma",
-              f"the lazy arm of the image filter overlaps blocks by {p.key()[:60]} pixels, which is not >= {trunc} x the "
-              "per-axis sigma in pixels: blocks see a cut kernel, the lazily filtered image differs from the eager one "
-              "and from the source-size-filtered patterns integrated afterwards", key_detail="image-depth")
-    # the clip uses the axis length that belongs to that sigma
-    clip = [c2 for c2 in ast.walk(e.elt) if isinstance(c2, ast.Call) and call_name(c2) == "min" and len(c2.args) == 2]
-    for c2 in clip:
-        other = [dotted(a) for a in c2.args if dotted(a) in roles]
-        ctx.check(all(roles[o] == "length" for o in other), "R-SRCTWIN", f"{g.qualname}:overlap-clip", g.loc(c2),
-                  "the depth is clipped to the length of the axis",
-                  f"the depth is clipped with `{', '.join(o for o in other)}`, which does not iterate the array shape",
-                  key_detail="image-clip")
+    def axis_name(c, a: int) -> str:
+        return f"ensemble axis {a}" if a < c.ensemble_dims else f"base axis {a - c.ensemble_dims}"
+
+    def truncate_of(c) -> Fraction:
+        t = c.kwargs.get("truncate", 4.0)
+        if isinstance(t, bool) or not isinstance(t, (int, float)):
+            raise AnalysisError(f"{g.qualname}: truncate= of the {c.arm} filter call is not a literal number")
+        return Fraction(str(t))
+
+    # ---- (1) the sigma every arm hands to the filter: 0 on the ensemble axes, sigma[k] / sampling[k] on base axis k
+    passed: dict[int, list] = {}  # id(case) -> per-axis sigma terms (None when misaligned)
+    for arm in ("lazy", "eager"):
+        bad = None
+        node = None
+        for c in (x for x in cases if x.arm == arm):
+            node = node or c.node
+            entries, why = F.per_axis(c.sigma, c.ndim, "sigma")
+            if entries is None:
+                bad = bad or f"{label(c)}: {why}, so the per-axis standard deviations are misaligned with the array axes"
+                passed[id(c)] = None
+                continue
+            polys = []
+            for a, v in enumerate(entries):
+                p = F.scalar_poly(v)
+                if p is None:
+                    raise AnalysisError(f"{g.qualname}: sigma entry for {axis_name(c, a)} is not an arithmetic term")
+                polys.append(p)
+                if a < c.ensemble_dims:
+                    if not p.is_zero():
+                        bad = bad or (f"{label(c)}: the filter receives sigma {F.show(p)} for {axis_name(c, a)}; the "
+                                      "Gaussian then mixes different ensemble members (scan positions, frozen phonons, "
+                                      "...), which integrating first and filtering the image never does")
+                else:
+                    k = a - c.ensemble_dims
+                    want = F.user_sigma(c.sigma_kind, k) * F.sampling(k).inverse()
+                    if p != want:
+                        bad = bad or (f"{label(c)}: the filter receives sigma {F.show(p)} [pixels] for {axis_name(c, a)}, "
+                                      f"not {F.show(want)}: the kernel differs from the source-size kernel "
+                                      "sigma[i]/scan_sampling[i], so integrate-then-filter and filter-then-integrate give "
+                                      "different images")
+            passed[id(c)] = polys
+        ctx.check(bad is None, "R-SRCTWIN", f"{g.qualname}:sigma-pixels {arm} arm", g.loc(node),
+                  "the filter receives 0 on every ensemble axis and sigma[k] / sampling[k] [pixels] on base axis k "
+                  "(0, 1, 2 ensemble axes; scalar and pair sigma)", bad or "", key_detail="sigma")
+
+    # ---- (2) the overlap of the lazy arm covers the truncation radius of the sigma handed to the filter, axis by axis
+    bad_depth = bad_clip = bad_boundary = None
+    ratios = set()
+    node = None
+    for c in (x for x in cases if x.arm == "lazy"):
+        node = node or c.node
+        sig = passed[id(c)]
+        if sig is None:
+            continue  # reported under sigma-pixels
+        if "depth" not in c.kwargs:
+            raise AnalysisError(f"{g.qualname}: map_overlap without depth=")
+        t = truncate_of(c)
+        entries, why = F.per_axis(c.kwargs["depth"], c.ndim, "the overlap depth")
+        if entries is None:
+            bad_depth = bad_depth or f"{label(c)}: {why}"
+            continue
+        for a, v in enumerate(entries):
+            p_sig = sig[a]
+            if p_sig.is_zero():
+                continue  # nothing is filtered along this axis: any overlap is enough
+            if not p_sig.is_monomial():
+                raise AnalysisError(f"{g.qualname}: sigma for {axis_name(c, a)} is not a monomial")
+            own = F.axis_length(c.ensemble_dims, a)
+            lengths = {F.axis_length(c.ensemble_dims, b).key(): b for b in range(c.ndim)}
+            args = F.min_args(v)
+            if args is None:
+                r0 = F.rounded(v)
+                if r0 is None:
+                    raise AnalysisError(f"{g.qualname}: overlap depth for {axis_name(c, a)} is not an arithmetic term")
+                args = [r0]
+            for how, p in args:
+                if p == own:
+                    continue  # clip to the length of this very axis
+                if p.key() in lengths:
+                    bad_clip = bad_clip or (f"{label(c)}: the overlap depth of {axis_name(c, a)} is clipped to the length "
+                                            f"of {axis_name(c, lengths[p.key()])}: whenever that other axis is shorter "
+                                            "than the kernel radius the blocks see a cut kernel along this one")
+                    continue
+                # the kernel reaches int(t * sigma + 0.5) pixels; ceil(c*sigma + k) covers it iff c >= t and k >= 0,
+                # floor(c*sigma + k) iff c >= t and k >= 1/2
+                ck = F.affine_in(p, p_sig)
+                need_k = Fraction(1, 2) if how == "floor" else Fraction(0)
+                if ck is not None and ck[0] >= t and ck[1] >= need_k:
+                    ratios.add(ck[0])
+                    continue
+                shown = F.show(p) if how == "exact" else f"{how}({F.show(p)})"
+                if ck is not None and ck[0] >= t:
+                    bad_depth = bad_depth or (
+                        f"{label(c)}: along {axis_name(c, a)} the kernel reaches int({float(t)} * sigma + 0.5) pixels for "
+                        f"the sigma {F.show(p_sig)} handed to the filter, but the blocks overlap by {shown} pixels, which "
+                        "is one pixel short of that for some sigma: lazy blocks see a cut kernel")
+                    continue
+                bad_depth = bad_depth or (
+                    f"{label(c)}: along {axis_name(c, a)} the filter is handed sigma {F.show(p_sig)} [pixels] and is "
+                    f"truncated at {float(t)} sigma, but the blocks overlap by {shown} pixels = "
+                    f"{F.show(p * p_sig.inverse())} x that sigma, which is not a constant >= {float(t)}: the overlap is "
+                    "not computed from the per-axis pixel sigma the filter receives, so lazy blocks see a cut kernel "
+                    "(and a too short periodic padding) whenever it comes out smaller; the lazily filtered image differs "
+                    "from the eager one and from the source-size-filtered patterns integrated afterwards")
+        # the padding dask adds around the whole array is the one the filter mode assumes
+        mode = c.kwargs.get("mode")
+        if mode == "wrap" and c.kwargs.get("boundary") != "periodic":
+            bad_boundary = bad_boundary or (f"{label(c)}: the filter runs with mode='wrap' but map_overlap pads the outer "
+                                            f"edge with boundary={c.kwargs.get('boundary', '<dask default>')!r}: the edge "
+                                            "blocks are not wrapped around, lazy and eager images differ at the border")
+    ctx.check(bad_depth is None, "R-SRCTWIN", f"{g.qualname}:overlap-depth", g.loc(node),
+              f"per filtered axis the lazy overlap is >= ceil({', '.join(str(float(r)) for r in sorted(ratios)) or '?'} x "
+              "the pixel sigma handed to the filter) (clipped to the axis length)", bad_depth or "",
+              key_detail="image-depth")
+    ctx.check(bad_clip is None, "R-SRCTWIN", f"{g.qualname}:overlap-clip", g.loc(node),
+              "the depth is clipped to the length of its own axis only", bad_clip or "", key_detail="image-clip")
+    ctx.check(bad_boundary is None, "R-SRCTWIN", f"{g.qualname}:overlap-boundary", g.loc(node),
+              "periodic filtering pads the outer edge periodically", bad_boundary or "", key_detail="image-boundary")
+
+    # ---- (3) lazy and eager arm apply the same filter with the same sigma, mode, cval and truncation
+    bad_twin = None
+    by = {}
+    for c in cases:
+        by.setdefault((c.ensemble_dims, c.sigma_kind), {})[c.arm] = c
+    for (_e, _k), pair in by.items():
+        if len(pair) != 2:
+            continue  # the other arm faulted: reported above
+        lz, eg = pair["lazy"], pair["eager"]
+        for what, x, y in (("the filter", lz.filter_name, eg.filter_name),
+                           ("sigma", None if passed[id(lz)] is None else [p.key() for p in passed[id(lz)]],
+                            None if passed[id(eg)] is None else [p.key() for p in passed[id(eg)]]),
+                           ("mode", _plain(lz.kwargs.get("mode", "reflect")), _plain(eg.kwargs.get("mode", "reflect"))),
+                           ("cval", _plain(lz.kwargs.get("cval", 0.0)), _plain(eg.kwargs.get("cval", 0.0))),
+                           ("truncate", truncate_of(lz), truncate_of(eg))):
+            if x != y:
+                bad_twin = bad_twin or (f"{label(lz)}: the lazy arm applies {what} {x} but the eager arm {y}: a lazy image "
+                                        "is filtered differently from the same image computed eagerly")
+    ctx.check(bad_twin is None, "R-SRCTWIN", f"{g.qualname}:lazy~eager", g.where,
+              "both arms apply the same filter with the same per-axis sigma, mode, cval and truncation", bad_twin or "",
+              key_detail="image-arms")
+
+
+def _plain(v):
+    from ..rules import imgfilter as F
+
+    if isinstance(v, (str, bool)) or v is None:
+        return v
+    p = F.scalar_poly(v)
+    if p is None:
+        raise AnalysisError("image filter: a filter keyword is not a plain value")
+    return p.key()
 
 
 def _image_grid(ctx, repo) -> None:
@@ -738,5 +876,5 @@ def run(ctx) -> None:  # noqa: F811
              "invariant and the image's own sampling or gpts reproduces its own grid), and both the lazy and the eager "
              "Fourier arm hand gpts and the caller's normalization to fft_interpolate — necessary for 'the Fourier method "
              "returns the input unchanged at the same grid'")
-    _run_deferring(ctx, [lambda: _scan_loop(ctx, repo), lambda: _image_depth(ctx, repo), lambda: _image_grid(ctx, repo)],
+    _run_deferring(ctx, [lambda: _scan_loop(ctx, repo), lambda: _image_filter(ctx, repo), lambda: _image_grid(ctx, repo)],
                    _inner_run_c16b)
